@@ -341,6 +341,10 @@ fn gen_toml(src: &mut Src, depth: usize, top: bool) -> MVal {
     }
     if !top && src.chance(110) {
         let n = src.below(4);
+        // arrays of tables now and then (every element a table)
+        if src.chance(100) {
+            return MVal::Arr((0..n).map(|_| gen_toml(src, depth.saturating_sub(1).max(1), true)).collect());
+        }
         return MVal::Arr((0..n).map(|_| gen_toml(src, depth.saturating_sub(1), false)).collect());
     }
     let n = src.below(5);
@@ -360,8 +364,36 @@ fn toml_eq(a: &MVal, b: &MVal) -> bool {
     flex_same(a, b, false, true)
 }
 
+/// all TOML documents {a: T} for the structure trees T of depth <= 3 over scalar, table with 0-2 keys and
+/// array with 0-2 elements (tables inside arrays, arrays of tables whose elements hold only tables,
+/// empty tables and arrays in every position: the cases where a writer has to choose between
+/// [header], [[header]] and inline forms)
+fn toml_shapes(depth: usize) -> Vec<MVal> {
+    let one = MVal::Int(BigInt::from(1), false);
+    if depth == 0 {
+        return vec![one];
+    }
+    let sub = toml_shapes(depth - 1);
+    let mut v = vec![one, MVal::Obj(vec![]), MVal::Arr(vec![])];
+    for x in &sub {
+        v.push(MVal::Obj(vec![(tstr("b"), x.clone())]));
+        v.push(MVal::Arr(vec![x.clone()]));
+    }
+    // pairs: the first component ranges over the shallower set, which keeps the enumeration at ~10^4
+    let shallow = if depth >= 2 { toml_shapes(depth - 2) } else { vec![MVal::Int(BigInt::from(1), false)] };
+    for x in &sub {
+        for y in &shallow {
+            v.push(MVal::Obj(vec![(tstr("b"), x.clone()), (tstr("d"), y.clone())]));
+            v.push(MVal::Obj(vec![(tstr("b"), y.clone()), (tstr("d"), x.clone())]));
+            v.push(MVal::Arr(vec![x.clone(), y.clone()]));
+            v.push(MVal::Arr(vec![y.clone(), x.clone()]));
+        }
+    }
+    v
+}
+
 fn toml(src: &mut Src) -> CaseResult {
-    let d = 1 + src.below(3);
+    let d = 1 + src.below(4);
     let v = gen_toml(src, d, true);
     round_trip("toml", "totoml | fromtoml", &v, toml_eq, src.sample, v.nodes() > 3)
 }
@@ -637,6 +669,15 @@ pub fn run(mut rep: Report) -> ! {
     rep.random("yaml", n, 160, yaml);
     rep.random("cbor", n, 160, cbor);
     rep.random("toml", n, 160, toml);
+    {
+        let shapes = toml_shapes(if rep.quick() { 3 } else { 4 });
+        rep.extra("toml_structure_trees", json!(shapes.len()));
+        let shapes = &shapes;
+        rep.indexed("toml-structures-small-scope", shapes.len() as u64, 1, true, move |i, s| {
+            let v = MVal::Obj(vec![(tstr("a"), shapes[i as usize].clone())]);
+            round_trip("toml", "totoml | fromtoml", &v, toml_eq, s, true)
+        });
+    }
     rep.random("csv-tsv", n, 96, csv);
     rep.random("xml", n, 160, xml);
     rep.fixed("outside-domain-rejected", N_OUTSIDE, outside);
